@@ -83,12 +83,13 @@ type world struct {
 	srvErr error
 	loop   *sess.PeerLoop
 
-	mu      sync.Mutex
-	queue   []*xmltree.Node
-	notify  chan struct{}
-	backlog []*xmltree.Node
-	reqs    map[string][]request // requests seen by the room, per occupant address
-	nextID  int
+	mu        sync.Mutex
+	queue     []*xmltree.Node
+	notify    chan struct{}
+	reqNotify chan struct{}
+	backlog   []*xmltree.Node
+	reqs      map[string][]request // requests seen by the room, per occupant address
+	nextID    int
 }
 
 func newWorld() (*world, error) {
@@ -96,7 +97,7 @@ func newWorld() (*world, error) {
 	if err != nil {
 		return nil, err
 	}
-	w := &world{p: p, log: &evlog{}, served: make(chan struct{}), notify: make(chan struct{}, 1), reqs: map[string][]request{}}
+	w := &world{p: p, log: &evlog{}, served: make(chan struct{}), notify: make(chan struct{}, 1), reqNotify: make(chan struct{}, 1), reqs: map[string][]request{}}
 	w.client = &muc.Client{
 		HandleInvite: func(i muc.Invitation) {
 			w.log.add(event{Ev: "cb", Op: "invite", M: i.Reason, Text: fmt.Sprintf("jid=%s password=%q continue=%v thread=%q", i.JID, i.Password, i.Continue, i.Thread)})
@@ -117,6 +118,10 @@ func newWorld() (*world, error) {
 			w.reqs[r.Addr] = append(w.reqs[r.Addr], r)
 			w.mu.Unlock()
 			w.log.add(event{Ev: "seen", Addr: r.Addr, ID: r.ID, Typ: r.Typ})
+			select {
+			case w.reqNotify <- struct{}{}:
+			default:
+			}
 			w.mu.Lock()
 		}
 		w.queue = append(w.queue, n)
@@ -190,7 +195,7 @@ func (w *world) expect(pred func(*xmltree.Node) bool, d time.Duration) *xmltree.
 // nthRequest waits until the room has seen at least n requests for addr and
 // returns the n-th (1-based).
 func (w *world) nthRequest(addr string, n int, d time.Duration) (request, bool) {
-	dl := time.Now().Add(d)
+	dl := time.After(d)
 	for {
 		w.mu.Lock()
 		rs := w.reqs[addr]
@@ -198,20 +203,18 @@ func (w *world) nthRequest(addr string, n int, d time.Duration) (request, bool) 
 		if len(rs) >= n {
 			return rs[n-1], true
 		}
-		if time.Now().After(dl) {
-			return request{}, false
-		}
 		select {
-		case <-w.notify:
-			// put the token back for expect
-			select {
-			case w.notify <- struct{}{}:
-			default:
-			}
-			time.Sleep(50 * time.Microsecond)
+		case <-w.reqNotify:
 		case <-w.loop.Done():
+			w.mu.Lock()
+			rs := w.reqs[addr]
+			w.mu.Unlock()
+			if len(rs) >= n {
+				return rs[n-1], true
+			}
 			return request{}, false
-		case <-time.After(2 * time.Millisecond):
+		case <-dl:
+			return request{}, false
 		}
 	}
 }
